@@ -89,16 +89,29 @@ fn run_miri(sim_dir: &Path, target: &Path, prof: Profile, prop: &str, base: u64,
     }
     // each invocation runs its `seeds` Miri seeds in parallel by itself; run several invocations
     // at once when the seed count leaves cores idle
+    // (workloads differ in length by an order of magnitude - batteries take a minute, random
+    // mixes seconds -, so a few more invocations than cores keeps the long ones from queueing)
     let par = (16 / seeds.max(1)).clamp(1, 8);
+    // long workloads first (for C07: batteries, then float batteries, then random mixes), so
+    // that the wall time is the longest workload's and not the sum of a long and a short one
+    let mut order: Vec<u64> = (0..workloads).collect();
+    if prof == Profile::Safety {
+        order.sort_by_key(|w| ([0u64, 2, 3, 1, 4][(w % 5) as usize], *w));
+    }
+    let order = &order;
     let next = std::sync::atomic::AtomicU64::new(0);
     std::thread::scope(|sc| {
         for _ in 0..par {
             sc.spawn(|| loop {
-                let w = next.fetch_add(1, std::sync::atomic::Ordering::Relaxed);
-                if w >= workloads || res.lock().map_or(true, |r| r.error.is_some()) {
+                let i = next.fetch_add(1, std::sync::atomic::Ordering::Relaxed);
+                if i >= workloads || res.lock().map_or(true, |r| r.error.is_some()) {
                     break;
                 }
+                let w = order[i as usize];
                 let wseed = base.wrapping_mul(1000).wrapping_add(w);
+                // batteries are schedule-independent by construction (one thread, or two threads
+                // on disjoint slots): one Miri seed each; the random mixes get them all
+                let seeds = if prof == Profile::Safety && matches!(w % 5, 0 | 1 | 3) { 1 } else { seeds };
                 let flags = format!("-Zmiri-many-seeds={}..{} -Zmiri-preemption-rate=0.05 -Zmiri-deterministic-floats", base, base + seeds);
                 let out = Command::new("cargo")
                     .current_dir(sim_dir)
